@@ -686,10 +686,18 @@ def check_writeback(ctx: Ctx) -> None:
     """rewrite_text_across_inlines: the write-back slices `converted` by the segment lengths under the length assertion."""
     repo, prog = ctx.repo, ctx.prog
     rw = repo.func("flowmark.transforms.doc_transforms:rewrite_text_across_inlines")
-    inner = [f for f in rw.local_defs.values() if isinstance(f, FuncInfo)]
-    if not inner:
+    # the function handed to transform_tree: a nested closure, a module-level function, or functools.partial of one
+    from .callback import resolve_callback
+
+    tr = None
+    for n_, c_ in prog.flow(rw).all_calls():
+        if call_name(prog, rw, c_).endswith(":transform_tree") and len(c_.args) >= 2:
+            cb_ = resolve_callback(prog, rw, c_.args[1], n_)
+            if cb_ is not None:
+                tr = cb_.func
+    if tr is None:
         raise AnalysisError("transformer closure of rewrite_text_across_inlines not found")
-    tr = inner[0]
+    repo.func(tr.qual)  # anchor
     flow = prog.flow(tr)
     asserts = [n for n in flow.cfg.nodes if n.kind == "stmt" and isinstance(n.ast, ast.Assert)]
     len_assert = [n for n in asserts if isinstance(n.ast.test, ast.Compare) and isinstance(n.ast.test.ops[0], ast.Eq)
@@ -710,6 +718,23 @@ def check_writeback(ctx: Ctx) -> None:
             text_var = head.ast.target.elts[0].id
         ok = False
         cursor = None
+        zipped_offsets = False
+        if head is not None and text_var is None and isinstance(head.ast.target, ast.Tuple) and len(head.ast.target.elts) == 2:
+            # for (text, node), pos in zip(segments, accumulate((len(t) for t, _ in segments), initial=0)): offsets are the running
+            # totals of the segment lengths, computed outside the loop body (nothing in the body can skip an advance)
+            t0, t1 = head.ast.target.elts
+            it = expand_expr(prog, tr, head.ast.iter, head, strict=False)
+            if isinstance(t0, ast.Tuple) and t0.elts and isinstance(t0.elts[0], ast.Name) and isinstance(t1, ast.Name) and isinstance(it, ast.Call) \
+                    and norm(it.func) == "zip" and len(it.args) == 2:
+                acc = expand_expr(prog, tr, it.args[1], head, strict=False)
+                seq = norm(it.args[0])
+                if isinstance(acc, ast.Call) and norm(acc.func) in ("accumulate", "itertools.accumulate") and acc.args \
+                        and any(k.arg == "initial" and isinstance(k.value, ast.Constant) and k.value.value == 0 for k in acc.keywords):
+                    g0 = acc.args[0]
+                    if isinstance(g0, (ast.GeneratorExp, ast.ListComp)) and len(g0.generators) == 1 and not g0.generators[0].ifs \
+                            and norm(g0.generators[0].iter) == seq and isinstance(g0.elt, ast.Call) and norm(g0.elt.func) == "len":
+                        text_var = t0.elts[0].id
+                        zipped_offsets = True
         if isinstance(v, ast.Subscript) and isinstance(v.slice, ast.Slice) and v.slice.lower is not None and v.slice.upper is not None \
                 and v.slice.step is None and isinstance(v.slice.lower, ast.Name) and text_var is not None:
             cursor = v.slice.lower.id
@@ -718,7 +743,10 @@ def check_writeback(ctx: Ctx) -> None:
         ctx.ob("R-SUBSHAPE-writeback", f"{tr.qual} :: slice [pos : pos + len(segment)]", bool(ok),
                "each node gets exactly its own stretch of the converted text", where(tr, s))
         # the cursor advances by the segment length for every segment, mutable or not
-        if head is not None and cursor is not None:
+        if head is not None and cursor is not None and zipped_offsets:
+            ctx.ob("R-SUBSHAPE-writeback", f"{tr.qual} :: cursor advances for every segment", True,
+                   "offsets are the running totals of all segment lengths (accumulate over every segment, zipped with the segments)", where(tr, head))
+        elif head is not None and cursor is not None:
             okc = False
             for a in flow.loop_body_nodes(head):
                 if a.kind != "stmt":
